@@ -197,7 +197,8 @@ class SccContext:
     """Processes SCC Preamble Address Code it to the map to model"""
 
     pac_row = pac.get_row()
-    pac_indent = pac.get_indent()
+    # PACs that set a color or italics address the first column
+    pac_indent = pac.get_indent() if pac.get_indent() is not None else 0
 
     if self.current_style is SccCaptionStyle.PaintOn:
 
